@@ -27,6 +27,7 @@ let parse_op (s : string) : C17Model.op =
   | "cmpe", [i; j] -> C17Model.OCmpE (ni i, ni j)
   | "cmpf", [k; l] -> C17Model.OCmpF (ni k, ni l)
   | "lf", [k; h] -> C17Model.OLayer (kind_of k, bytes_of_hex h)
+  | "pk", [h] -> C17Model.OPacket (bytes_of_hex h)
   | _ -> failwith ("c17 op: " ^ s)
 
 let ev (v : C17Model.eview) =
@@ -45,6 +46,9 @@ let show (o : C17Model.obs) : string =
   | C17Model.BFlow f -> "cls=ok;f=" ^ fv f
   | C17Model.BBoth (e, f) -> "cls=ok;e=" ^ ev e ^ ";f=" ^ fv f
   | C17Model.BCmpE (eq, lt, gt, look) -> Printf.sprintf "eq=%d;lt=%d;gt=%d;look=%d" (b01 eq) (b01 lt) (b01 gt) (b01 look)
+  | C17Model.BStack (l, n, t) ->
+    let o = function Some f -> fv f | None -> "-" in
+    Printf.sprintf "cls=ok;l=%s;n=%s;t=%s" (o l) (o n) (o t)
   | C17Model.BCmpF (eq, look, heq) -> Printf.sprintf "eq=%d;look=%d;heq=%d" (b01 eq) (b01 look) (b01 heq)
 
 let run (id : string) (ops : string list) (out : out_channel) =
